@@ -21,18 +21,44 @@ func tableFuncs(c *fw.Ctx, rule, field string) map[string]*ssa.Function {
 		return nil
 	}
 	out := map[string]*ssa.Function{}
+	// a function registered under a new name (a rename, a method of a new receiver) keeps the
+	// name the specification oracle knows it by as the key of its obligations, provided the
+	// assignment of names to versions is one-to-one
+	expOf := map[string]map[string]bool{}
+	gotOf := map[string]map[string]bool{}
+	for _, ver := range t.versions {
+		got := t.cell(ver, field)
+		if exp, ok := specCell(ver, field); ok {
+			if expOf[got] == nil {
+				expOf[got] = map[string]bool{}
+			}
+			if gotOf[exp] == nil {
+				gotOf[exp] = map[string]bool{}
+			}
+			expOf[got][exp] = true
+			gotOf[exp][got] = true
+		}
+	}
 	for _, ver := range t.versions {
 		short := t.cell(ver, field)
-		if _, ok := out[short]; ok {
+		fn := fnByShortName(c.P, short)
+		key := short
+		if len(expOf[short]) == 1 {
+			for exp := range expOf[short] {
+				if exp != short && len(gotOf[exp]) == 1 && expOf[exp] == nil && strings.HasPrefix(exp, "gmsl.") {
+					key = exp
+				}
+			}
+		}
+		if _, ok := out[key]; ok {
 			continue
 		}
-		fn := fnByShortName(c.P, short)
 		if fn == nil {
 			c.Undecided(rule, "table function "+short, "not found")
 			continue
 		}
 		c.SawFn(short)
-		out[short] = fn
+		out[key] = fn
 	}
 	return out
 }
@@ -151,6 +177,12 @@ func checkUntrustedCtor(c *fw.Ctx, short string, fn *ssa.Function) {
 	// the analysis then runs in that helper, after showing that the constructor hands back
 	// exactly what the helper returns
 	dcs := deepCallsTo(fn, hashCheckName)
+	if len(dcs) == 0 && c.P.Func("checkEventContentHash") == nil {
+		// the routine that compares the hashes no longer exists under the name the rule knows (it was
+		// renamed or became a method): its absence from the constructor says nothing
+		c.Undecided(rule, short+" checks the content hash", "no routine named checkEventContentHash exists in this tree; the content-hash check was not located")
+		return
+	}
 	if len(dcs) == 0 {
 		c.Fail(rule, short+" checks the content hash", c.P.Pos(fn.Pos()), "no content-hash check is reachable from the constructor: a tampered event is returned unredacted")
 		return
